@@ -794,7 +794,21 @@ func c18GridGeom(t *rapid.T) gm.G {
 		return p
 	}
 	n := rapid.IntRange(2, 6).Draw(t, "gn")
-	switch rapid.IntRange(0, 2).Draw(t, "gkind") {
+	switch rapid.IntRange(0, 3).Draw(t, "gkind") {
+	case 3: // small triangles at grid positions (several may coincide): members with extent
+		g := gm.G{T: gm.MultiPolygon, CT: ct}
+		for i := 0; i < n; i++ {
+			p0 := pos()
+			d := len(p0)
+			mk := func(dx, dy float64) []gm.F {
+				q := append([]gm.F{}, p0...)
+				q[0], q[1] = gm.F(float64(q[0])+dx), gm.F(float64(q[1])+dy)
+				return q[:d]
+			}
+			ring := append(append(append(append([]gm.F{}, p0...), mk(0.25, 0)...), mk(0, 0.25)...), p0...)
+			g.Mem = append(g.Mem, gm.G{T: gm.Polygon, CT: ct, Rings: [][]gm.F{ring}})
+		}
+		return g
 	case 0:
 		g := gm.G{T: gm.MultiPoint, CT: ct}
 		for i := 0; i < n; i++ {
